@@ -58,6 +58,8 @@ out.append('* `C10-h2`: showdown scores derived from the *position* in a sorted 
 out.append('* `C11-h2`: identical in effect to `C12-h2` (an all-in raise that does not update the minimum raise): only an *extra* raise offer results, which C11 does not forbid; carrying the undersized raise out is a C12 violation and **C12 catches the change**.')
 out.append('* `C06-i1` (round 9): the pots are no longer rebuilt before the settlement, so a hand restored from JSON right before its last `Next()` closes with a result in which no pot has a winner and nobody\'s chips change. The hand does reach its closed state *with* a result and accepts nothing afterwards (C06\'s clauses); that the result pays nobody is C02\'s subject and a difference between the restored and the live game is C07\'s, and **C02 and C07 catch the change** (`engine/amount/exact`, `backend-diverges/next`).')
 out.append('* `C18-h1`: only shows when a seat manager is restored (`ApplyStates`) from a snapshot of a *smaller* table than the one it was built for. The pinned code does not support that either (its `Join(any)` then hands out the stale seats beyond the new size), nothing in the repository does it, and the histories restore into a manager of the same size.')
+out.append('* `C09-j1` (round 10): drops players when a hand-out is trimmed to the free seats of a table - which only happens with an outstanding demand above the free seats, and by the agent\'s own analysis that state needs the competition to be put back to Pending while tables are running (registrations during the pause book a demand that is not served). A competition that goes backwards is not generated (see `C19-h1`): nothing in the repository does it, and on the pinned code that very history already over-fills a table (9 seated + a stale demand of 2, then two late entries are sent to the full table), so the pause is not a supported use and a check that generated it would alarm on the unchanged tree.')
+out.append('* `C08-j1` (round 10): a newcomer who has joined but not yet sat in when the button passes him keeps a closed seat - visible only with a *second* newcomer behind him who is ready, so that the big blind lands behind the first. C08 fixes the timing "other players staying put"; with another player arriving in the same break the others do not stay put. A generalised rule (took a seat between dealer and big blind, passed by the button since, has sat in => dealt in) was tried as an oracle and is **falsified by the pinned code itself** (3 of 17 k relevant histories: when the button passes a not-yet-ready newcomer in the one-player-left branch of `nextDealer`, the seat stays closed exactly as in the seeded change), so it is not what the code under test promises and was not adopted.')
 out.append('* `C19-h1`: opens a table while the status is Pending *after the competition had already been started once and was put back*. C19 forbids tables \"before the competition has started\"; a competition that goes back to Pending is not generated.')
 out.append('* `C19-h2`: needs a `requestTableFn` callback that fails (see `C19-f1`).')
 out.append('* `C14-g1`: only shows in a configuration that requires more hole cards than a player holds (3 required of 2). The pinned engine accepts that configuration but cannot evaluate it (it reports four-card "hands"), so it is not among the accepted configurations the generators draw from.')
@@ -83,7 +85,7 @@ out.append('')
 out.append('Result: silent on all twelve (quick tier), with one exception that was a false alarm of mine and is corrected: b9 blanks the *viewer\'s own* hand evaluation once the viewer has folded, and C15\'s oracle demanded the viewer\'s whole own entry unchanged. The statement keeps "the viewer\'s own cards and all public information"; an evaluation of a folded hand is neither (it is hidden from everybody else even after the close), so the oracle now accepts the viewer\'s own evaluation either unchanged or absent - anything else in the own entry, and an *altered* evaluation, still alarm. All seven seeded C15 changes are still caught after the correction. Silent on the first six (quick tier), also after the later strengthenings of the checks. Two oracles were loosened *because of this experiment\'s reasoning, before it ran*: C01 accepts pots republished between the fixed publication points, C04\'s carried-out-action clause only judges action names of the offer vocabulary; C14 accepts hole cards handed out before the first street.')
 out.append('')
 out.append('### 10.4 Silence on the unchanged tree\n')
-out.append('On the final tree (after fix F10 and the strengthenings of rounds 6 and 7): quick tier at `VERIF_SEED` 1..5 for all 20 properties (100 runs, machine busy with other runs): 100 x OK; thorough tier at seed 1: 20 x OK (1-21 min each; C15 is the longest since every state is shown to n + 4 viewers). Earlier in the session: seeds 1..7 (140 runs) OK. All twelve benign patches: 80 check runs, all silent. `vp check` (fresh copy of the sandbox, `setup_cmd`, every quick command): nothing needed attention.')
+out.append('On the final tree (after fix F10 and the strengthenings of rounds 6 and 7): quick tier at `VERIF_SEED` 1..5 for all 20 properties (100 runs, machine busy with other runs): 100 x OK; thorough tier at seed 1: 20 x OK (1-21 min each; C15 is the longest since every state is shown to n + 4 viewers). Earlier in the session: seeds 1..7 (140 runs) OK. All twelve benign patches: 80 check runs, all silent. `vp check` (fresh copy of the sandbox, `setup_cmd`, every quick command): nothing needed attention. After the strengthenings of rounds 9 and 10 (C07 stack mix, C13 structures without a big blind, C18 racing leaves, C19 outstanding demand, C20 quiet stretches / progress oracle / large fields, seat histories with quiet stretches): all 20 quick checks at seed 1 OK, the changed checks (C07 C08 C09 C13 C17 C18 C19 C20) also at seeds 2 and 3, C20 thorough (4 M histories) OK, benign regulator patches b5 and b11 silent under C09 / C19 / C20; `vp check` on the round-9 tree: nothing needed attention.')
 # ---- 10.5 systematic mutation
 import subprocess, os
 if os.path.exists('/verif/tools/mutation/results.json'):
